@@ -478,6 +478,10 @@ fn regress_values() -> Vec<Value> {
         num(&[3], &[-0.0, -7.0, 300.0]),
         num(&[2], &[-0.0, 0.5]),
         cplx(&[2], &[Complex::new(-0.0, 1.0), Complex::new(0.0, -0.0)]),
+        // 5fca0d7: the short forms i / ¯i only for the numbers they evaluate to (re +0 im 1, re ¯0 im ¯1)
+        cplx(&[], &[Complex::new(-0.0, 1.0)]),
+        cplx(&[], &[Complex::new(0.0, -1.0)]),
+        cplx(&[4], &[Complex::new(0.0, 1.0), Complex::new(-0.0, -1.0), Complex::new(0.0, -1.0), Complex::new(-0.0, 1.0)]),
         cplx(&[0], &[]),
         cplx(&[0, 2], &[]),
         boxes(&[2], vec![cplx(&[0], &[]), num(&[1], &[-0.0])]),
